@@ -339,11 +339,11 @@ class C09(common.Check):
         # ... and caller threads protecting on one cache (every pre-emption decided by the thread scheduler)
         from checks import threadpure
 
-        for i in range(700 if tier == "quick" else 30000):
+        for i in range(1800 if tier == "quick" else 60000):
             l0 = rng.randrange(330, 500)
             base = rng.choice((l0 * 1024 * B, (l0 * 1024 + rng.randrange(1, 1024)) * B))
             tick_ticks = rng.choice((1, 1, 2, 3, 40))
-            pol = {"mode": "marks", "q": rng.choice((0.2, 0.4, 0.6, 0.9)), "p": rng.choice((0.0, 0.01, 0.03))} if i % 3 else threadpure.policy_for(i // 3)
+            pol = {"mode": "marks", "q": rng.choice((0.2, 0.4, 0.6, 0.9, 1.0)), "p": rng.choice((0.0, 0.0, 0.01, 0.03))} if i % 4 else threadpure.policy_for(i // 4)
             out.append(["toverlap", 2 + i % 2, base - rng.randrange(1, 6) * tick_ticks, tick_ticks, rng.getrandbits(30), pol])
         # an account that may only encrypt, a DC whose clock is 1..3 s ahead, calls made within the last second(s) before a boundary:
         # whatever a later call takes from the cache must name the interval of the caller's own clock
